@@ -15,7 +15,9 @@ EXPLANATION = (
     "with done = term|trunc and reward = the step's env.reward(...) node; C19.4 on_iteration logs means over the environment "
     "axis, the summed step counter, and every backend call goes through jax.debug.callback(ordered=True); C19.5 evaluation "
     "helpers: rollout_scan emits select(done_carry, 0, r) and carries done' = terminal|truncate, rollout_while continues under "
-    "~(terminal|truncate), average_reward = mean over vmap(episode)(split(key, num_episodes)), deterministic => key-less policy."
+    "~(terminal|truncate), average_reward = mean over vmap(episode)(split(key, num_episodes)), deterministic => key-less policy; "
+    "C19.6 a CallbackList hands callback i its own state (and step state) and its own split of the key in every hook and stores its "
+    "result at position i."
 )
 ASSUMPTIONS = [
     "rewards and accumulators are finite (selections are expanded as c*a + (1-c)*b)",
@@ -59,6 +61,59 @@ def check_average_reward(s, rule="C19.5"):
                      key="episode-args", detail=show(r, maxlen=200))
     if kinds != {"rollout_while", "rollout_scan"}:
         raise AnalysisError(f"{con8}: expected both helpers to be reachable, got {kinds}")
+
+
+def check_callback_list(s, rule):
+    """A CallbackList is transparent: callback i is reset / stepped / consulted with ITS OWN state (and step state) and its own split of
+    the key, and its result is stored at position i. Otherwise a logging callback inside a list would accumulate another observer's
+    state (or none), and what it reports would not be what happened."""
+    from .util import POS, element_at_pos
+    self_ = ("param", "self")
+    ctx = ("param", "ctx")
+    b = s.builder(inline=set())
+    nz = Normalizer(b)
+    cbs = ("attr", self_, "callbacks")
+    split = nz.canon(s.ref(b, "jr.split(key, len(self.callbacks))", {"self": self_, "key": ("param", "key")}))
+    own_state = ((("state",), ("sub", ("attr", ("attr", ctx, "state"), "states"), POS)),)
+    own_both = own_state + ((("step_state",), ("sub", ("attr", ("attr", ctx, "step_state"), "states"), POS)),)
+    table = {"reset": (None, "CallbackListState"), "step_reset": (None, "CallbackListStepState"), "on_step": (own_state, "CallbackListStepState"),
+             "on_iteration": (own_both, "CallbackListState"), "on_training_start": (own_both, "CallbackListState"), "on_training_end": (own_both, "CallbackListState"),
+             "continue_training": (own_both, None)}
+    for meth, (upd, rec) in table.items():
+        con = f"CallbackList.{meth}"
+        loc = s.loc("CallbackList", meth)
+        for p in live(s.paths(b, "CallbackList", meth)):
+            r = p.ret
+            if rec is not None:
+                okr = isinstance(r, tuple) and r and r[0] == "record" and r[1].split(".")[-1] == rec
+                lst = fields(r).get("states") if okr else None
+            else:
+                # the verdicts of all callbacks are combined by conjunction
+                okr = isinstance(r, tuple) and r and r[0] == "call" and r[1] in (("global", "jax.numpy.all"), ("global", "all"))
+                lst = r[2][0] if okr and r[2] else None
+                while isinstance(lst, tuple) and lst and lst[0] == "call" and lst[1] in (("global", "jax.numpy.array"), ("global", "jax.numpy.asarray"), ("global", "jax.numpy.stack")) and lst[2]:
+                    lst = lst[2][0]
+            comp = lst if isinstance(lst, tuple) and lst and lst[0] == "comp" else None
+            s.ob(rule, con, okr and comp is not None, f"returns {rec or 'the conjunction'} over one comprehension across the callbacks", loc, key="list-shape", detail=show(r, maxlen=200))
+            if comp is None:
+                continue
+            ew = element_at_pos(comp)
+            want_ctx = ctx if upd is None else ("update", ctx, upd)
+            ok = False
+            if ew is not None:
+                elt, _ = ew
+                if isinstance(elt, tuple) and elt and elt[0] == "call" and elt[1] == ("attr", ("sub", cbs, POS), meth) and len(elt[2]) == 1:
+                    kw = dict((k_, v) for k_, v in elt[3] if k_)
+                    kn = kw.get("key")
+                    key_ok = isinstance(kn, tuple) and kn and kn[0] == "sub" and kn[2] == POS and nz.canon(kn[1]) == split
+                    a0 = elt[2][0]
+                    ctx_ok = a0 == want_ctx or (isinstance(a0, tuple) and a0 and a0[0] == "update" and a0[1] == ctx and upd is not None and sorted(a0[2]) == sorted(upd))
+                    ok = key_ok and ctx_ok and set(kw) == {"key"}
+            s.ob(rule, con, ok, "element i is callbacks[i]." + meth + "(ctx with state := ctx.state.states[i]" + (", step_state := ctx.step_state.states[i]" if upd is own_both else "") + ", key = split(key, n)[i])"
+                 if upd is not None else "element i is callbacks[i]." + meth + "(ctx, key = split(key, n)[i])", loc, key="own-state-own-key",
+                 detail=show(ew[0], maxlen=400) if ew else "not a single unfiltered generator",
+                 necessary_for="each observer in a list sees its own accumulated statistics and nobody else's")
+    s.floor(rule, 14)
 
 
 def check(s):
@@ -201,6 +256,8 @@ step = self.step + 1
                     okw = dict((k, v) for k, v in x[3] if k).get("ordered") == ("param", "ordered")
     s.ob("C19.4", "lerax.utils.callback_wrapper", okw, "callback_wrapper forwards its `ordered` argument to jax.debug.callback", s.prog.loc(m5, f5),
          key="ordered-forwarded")
+    # ---------------------------------------------------------------- C19.6 callback lists are transparent
+    check_callback_list(s, "C19.6")
     # ---------------------------------------------------------------- C19.5
     b6 = s.builder(inline=set())
     nz6 = Normalizer(b6)
